@@ -52,6 +52,14 @@ def seeds(trimesh):
     gv = np.array([[0, 0, 0], [1, 0, 0], [2, 0, 1], [0, 1, 0], [1, 1, 0], [2, 1, 1], [1, 0, 0], [5, 5, 5]], dtype=float)
     gf = np.array([[0, 1, 4], [0, 4, 3], [6, 2, 5], [6, 5, 4]])
     out["strip_dup"] = (gv, gf, {})
+    # a larger closed surface (80 faces) with a triangle hole and a quad hole: hole filling, face masks and
+    # setter guards that only look at the first rows behave differently beyond 20 faces
+    ico = trimesh.creation.icosphere(subdivisions=1, radius=2.0)
+    fi = np.array(ico.faces)
+    adj = np.array(ico.face_adjacency)
+    drop = {int(adj[5][0]), int(adj[5][1]), 40}
+    keep = np.array([k for k in range(len(fi)) if k not in drop])
+    out["ico_holes"] = (np.array(ico.vertices), fi[keep], {})
     return out
 
 
